@@ -18,14 +18,14 @@ CLAIMED = {
             "which returns the same document, and canonicalising it again gives the same bytes, for flat documents (C01_flat_fixed_point), arbitrarily nested blocks (C01_tree_fixed_point), META + trees "
             "(C01_meta_fixed_point), sections with ids 1 / 2b / NAME nested to any depth (C01_sect_fixed_point), expressions with every operator (C01_expr_fixed_point), list values (C01_list_fixed_point), "
             "trees with leading / trailing / end-of-document comments (C01_ctree_fixed_point), and two unified classes: rich values inside blocks and sections "
-            "(C01_udoc_fixed_point) META + sections + comments on every node (C01_document_fixed_point), joined in the master class with float values and trailing comments behind lists (C01_mdoc_fixed_point); emit ignores positions. PARTIAL: documents outside the master class (orphan comments, zones and spelling freedoms are proved in classes of their own; nested lists), floats inside documents, inline "
+            "(C01_udoc_fixed_point) META + sections + comments on every node (C01_document_fixed_point), joined in the master class with float values and trailing comments behind lists (C01_mdoc_fixed_point); emit ignores positions. NESTED LISTS to any depth below the reader's limit of 100 brackets with float, int and string leaves, in the emitter's mixed one-line / multi-line layout (C01_nested_canonical_is_readable, C01_nested_fixed_point, C01_nested_canon_fixed); inline-map items (C01_maps_fixed_point). PARTIAL: documents outside these classes (orphan comments, zones and spelling freedoms are proved in classes of their own), multi-pair inline "
             "maps, holographic values and zones in lists/META (findings C01N5, C01N6) are backed by the tie only: regenerated lexer/emitter/parser tables pinned by decide facts; exact correspondence "
             "(canonical text, strict verdict) of the full transcription on generated documents, the shipped corpus, exhaustive token sequences and mutations; oracle on the real code incl. tools."),
     "C02": ("text", "Lean 4 proof (content preservation at document level per construct; comments attached and kept; reader value typing; list values) + content-model oracle + AST correspondence",
             "Theorems: reading the canonical text of every document of the classes of C01 yields exactly its name, keys, nesting, order, section ids and values with their types, nothing else, through "
             "the strict and lenient entry points with the exact warning list (C02_flat/_tree/_meta/_sect/_list_content_preserved, ..._lenient_read_silent); every leading, trailing (also empty) and "
             "end-of-document comment of a tree is attached to its node and read back as written, orphan comments stay in their block (C02_ctree_content_preserved, C02_ctree_comments_in_order, C02_comment_orphans, C02_otree_document_read); "
-            "parseValue on (nested) list tokens of any length returns exactly the list (C02_nested_list_typed). PARTIAL: mixtures outside the unified classes, inline maps, holographic values, zones in "
+            "parseValue on (nested) list tokens of any length returns exactly the list (C02_nested_list_typed); at document level the item at ANY index path of a nested list is read back at the same path with its type (C02_nested_content_preserved, C02_nested_item_preserved). PARTIAL: mixtures outside the unified classes, inline maps, holographic values, zones in "
             "lists are backed by the content oracle (content known independently of any parser, covering matrix value kind x position) and the correspondence on full ASTs with positions."),
     "C03": ("text", "Lean 4 proof (convergence of every whitespace/quote spelling of flat documents, every alias spelling of expressions, every layout of list values, # section markers) + convergence search",
             "Theorems: every lenient spelling of a flat document - spaces around ::, leading indentation, trailing spaces, blank and whitespace-only lines, quotes around plain words, triple quotes, "
@@ -38,8 +38,8 @@ CLAIMED = {
     "C04": ("text", "Lean 4 proof (escape/unescape inverse; strings, booleans, null, integers survive emit -> tokenize -> parse inside documents; int/float re-lex) + exhaustive scalar round trip",
             "Theorems hold for every string of any characters: unescape(escape s) = s; the quoted lexeme re-lexes to ONE STRING token carrying s; a bare word to one IDENTIFIER token; every int within "
             "CPython's 4300-digit limit and every float repr re-lex to ONE NUMBER token with the same value, beyond the limit a positioned LexerError (C04_int_relex, C04_int_over_limit_refused, "
-            "C04_float_relex under the Env law repr(float(r)) = r); at document level the value read back equals the value written (C02_flat_content_preserved and the classes of C01, floats as line values in C02_mdoc_content_preserved). PARTIAL: floats "
-            "as list items / META values, inline-map positions and NFC (finding F16) are decided by the exhaustive correspondence: strings <=3 over the class alphabet x 9 positions, random strings, "
+            "C04_float_relex under the Env law repr(float(r)) = r); at document level the value read back equals the value written (C02_flat_content_preserved and the classes of C01, floats as line values in C02_mdoc_content_preserved, float and negative-int items at any path of a nested list in C04_nested_number_survives, inline-map values in C04_maps_scalar_survives). PARTIAL: floats "
+            "as META values and NFC (finding F16) are decided by the exhaustive correspondence: strings <=3 over the class alphabet x 9 positions, random strings, "
             "ints to 4300 digits, floats; octave_write changes path."),
     "C05": ("text", "Lean 4 proof (a zone is tokenised, read and re-emitted verbatim for every content, marker and tag; exact guard of finding C05N1) + zone pipelines search",
             "Theorems (every content: tabs, NFD, backslashes, quotes, operators, ===END===, shorter backtick runs): normalisation returns the text unchanged with exactly one span, tabs are accepted "
@@ -52,7 +52,11 @@ CLAIMED = {
             "Theorems (every input text, both lexer modes): the normalisation receipts are, in order, exactly the normalised tokens with original text, replacement and position "
             "(C07_lexer_receipts_bijection, every_rewrite_has_receipt, every_receipt_has_rewrite); every alias spelling of every expression yields exactly one receipt per alias occurrence and the "
             "canonical spelling none (C07_expr_alias_receipts, C07_expr_canonical_no_receipts); canonical flat, nested, commented, sectioned, META and list documents yield no normalisation receipt. "
-            "PARTIAL: parser-level rewrites (multi-word values, constructor repairs) and the tool routes (finding C07N1) are decided by the search: expected receipts from the renderer's own layout "
+            "PARSER-level rewrite of multi-word bare values: for every flat document whose values are scalars or runs of identifier words with any spacing, the reader returns the document of the canonical lines "
+            "and the multi_word_coalesce receipts are exactly one per multi-word line with words, result, line and column; canonical text yields none (C07_multiword_read, C07_multiword_receipts, "
+            "C07_multiword_receipts_exact, C07_multiword_canonical_none). Brace-for-angle repair NAME{q} -> NAME<q> of the lenient lexer: exactly one curlyBrace record per brace spelling, none for canonical "
+            "text, none in strict mode (C07_brace_receipts, C07_brace_canonical_none, C07_brace_strict_no_rewrite). "
+            "PARTIAL: the other parser-level rewrites (multi-word values headed by numbers / strings, constructor repairs) and the tool routes (findings C07N1, C07N2) are decided by the search: expected receipts from the renderer's own layout "
             "arithmetic, compared as lists with positions; model/implementation receipt lists correspond exactly."),
     "C20": ("text", "Lean 4 proof (lexer and parser: closure, progress, fuel never exhausted) + exhaustive/seeded exception-class correspondence + deterministic cost scaling",
             "Theorems (every input): only positioned LexerErrors escape tokenize, every iteration consumes input, the fuel is never exhausted; the parser never lets a foreign Python exception escape "
